@@ -66,6 +66,9 @@ FIELDS = ['count', 'name', 'person', 'person.name', 'person.age + 1', 'person.ta
           # freshly computed numbers and strings: temporaries that exist only while the field is evaluated
           'count * 1.5', 'count / 3', 'person.age / 7', 'len(data) * 0.25', 'count * 1000 + 7', 'name * 3',
           'person.age * 12345',
+          # parts that open a scope of their own still see the frame's variables
+          'sum(d * count for d in data)', 'max((len(name) + d for d in data), default=count)',
+          'sorted(w + name for w in WORDS)',
           # empty containers, stored and freshly made
           'data * 0', 'list()', 'dict()', 'tuple(data)', 'set()', 'sorted(data) * 0', 'dict(person.tags)']
 FAILING = ['nope_zz', 'person.missing', 'data[99]', '1/0', 'person.tags["zz"]', 'int(name)', 'weird.attr', 'count.x']
@@ -123,7 +126,7 @@ def render(template, frame):
             j = template.index('}', i)
             expr = template[i + 1:j]
             try:
-                val, failed = eval(expr, frame.f_globals, frame.f_locals), None
+                val, failed = snapcheck.eval_in_frame(expr, frame), None
             except BaseException as e:  # noqa
                 val, failed = None, e
             fields.append((expr, val, failed))
